@@ -22,6 +22,9 @@ import Pymeeus.Gen.F.EpochCore
 import Pymeeus.Gen.@K@.SunEarth
 namespace Pymeeus.Gen@K@
 open Pymeeus Pymeeus.P@K@
+/- everything of C07-C09 lives in the sub-namespace `Helio`, so that the Python names used here
+   (`kepler_equation`, `ecliptical2equatorial`, `mean_obliquity`, …) cannot clash with other templates -/
+namespace Helio
 
 --@only F
 /-! ### `Epoch(x)` and `Epoch.year()` on binary64 (Epoch.py:208, 1409, 752, 1775) -/
@@ -561,4 +564,5 @@ def minor_heliocentric_ecliptical_position (body : MinorBody) (jde : Num) : PyRe
     -- lon = atan2(y, x); lat = atan2(z, sqrt(x * x + y * y))
     .ok (angOfRad (patan2 y x), angOfRad (patan2 z (psqrt (x * x + y * y))))
 
+end Helio
 end Pymeeus.Gen@K@
